@@ -21,8 +21,12 @@ Require Import JV.Model.HashEnc.
 Import ListNotations.
 Open Scope Z_scope.
 
-Inductive nop := NO (o : op) | NGlobal (name : list byte).   (* name = b"module\nqualname\n" *)
-Definition nser (o : nop) : list byte := match o with NO o => ser o | NGlobal n => 99 :: n end.
+Inductive nop :=
+| NO (o : op)
+| NGlobal (name : list byte)      (* GLOBAL, name = b"module\nqualname\n" *)
+| NPop | NPopMark.                (* POP, POP_MARK: only written for a tuple that contains itself *)
+Definition nser (o : nop) : list byte :=
+  match o with NO o => ser o | NGlobal n => 99 :: n | NPop => [48] | NPopMark => [49] end.
 Definition nser_all (ops : list nop) : list byte := flat_map nser ops.
 
 (* ---------------------------------------------------------------- arrays *)
@@ -137,6 +141,9 @@ Definition xlift (e : encoder) : xencoder :=
            | Some (ops, m') => Some (map NO ops, [], with_memo m m')
            end.
 
+(* Pickler.save_tuple (proto 3) with the memo: a hit before anything is written; after the items, the
+   "Subtle" branch -- the tuple was memoised while its own items were saved (it contains itself through a
+   list or dict): throw the items away (POP * n or POP_MARK) and fetch the memoised object *)
 Definition xtuple (id : Z) (es : list xencoder) (m : xmemo) : option xout :=
   match lookup_id id (xobjs m) with
   | Some i => Some ([NO (get_op i)], [], m)
@@ -147,10 +154,16 @@ Definition xtuple (id : Z) (es : list xencoder) (m : xmemo) : option xout :=
            | None => None
            | Some (os, us, m1) =>
              let n := length es in
-             let (p, m2) := xmemoize id m1 in
-             Some ((if Nat.leb n 3
-                    then concat os ++ [NO (match n with 1%nat => OTuple1 | 2%nat => OTuple2 | _ => OTuple3 end)]
-                    else NO OMark :: concat os ++ [NO OTuple]) ++ p, us, m2)
+             match lookup_id id (xobjs m1) with
+             | Some i =>
+               Some ((if Nat.leb n 3 then concat os ++ repeat NPop n else NO OMark :: concat os ++ [NPopMark])
+                       ++ [NO (get_op i)], us, m1)
+             | None =>
+               let (p, m2) := xmemoize id m1 in
+               Some ((if Nat.leb n 3
+                      then concat os ++ [NO (match n with 1%nat => OTuple1 | 2%nat => OTuple2 | _ => OTuple3 end)]
+                      else NO OMark :: concat os ++ [NO OTuple]) ++ p, us, m2)
+             end
            end
     end
   end.
